@@ -1,4 +1,5 @@
 import AL.Model.Render
+import AL.Model.JsonEnc
 import AL.Model.Proc
 import AL.Model.Positions
 import AL.Model.Parser
@@ -38,6 +39,36 @@ def handleSnippet : List String → String
       | none => "none"
       | some ln => AL.hexBytes ln
   | _ => "bad-op"
+
+/-- `indicator <linehex> <col> <width of the bytes before the column> <((rune,width),…)>`: the line under the snippet -/
+def handleIndicator : List String → String
+  | [ln, c, sw, table] =>
+    match AL.unhex ln, (readSExp table) with
+    | some line, some t =>
+      let ws : List (Nat × Nat) := match t with
+        | .list l => l.filterMap fun e => match e with
+          | .list [.atom r, .atom w] => some (r.toNat!, w.toNat!)
+          | _ => none
+        | _ => []
+      let rw : Nat → Nat := fun r => match ws.find? (·.1 = r) with | some e => e.2 | none => 0
+      hexStr (String.ofList (indicator (fun _ => sw.toNat!) rw line c.toNat!))
+    | _, _ => "bad-op"
+  | _ => "bad-op"
+
+/-- `jsonenc (<msghex> <filehex> <line> <col> <kindhex> <snippethex> <endcol>)*`: the `{{json .}}` output for these records -/
+def handleJsonEnc (args : List String) : String :=
+  let rec go : List String → List AL.JsonEnc.Fields → Option (List AL.JsonEnc.Fields)
+    | [], acc => some acc
+    | m :: f :: l :: c :: k :: s :: e :: rest, acc =>
+      match unhexStr m, unhexStr f, unhexStr k, unhexStr s with
+      | some m, some f, some k, some s =>
+        go rest (acc ++ [{ message := m.toList, filepath := f.toList, line := l.toNat!, column := c.toNat!, kind := k.toList,
+                           snippet := s.toList, endColumn := e.toNat! }])
+      | _, _, _, _ => none
+    | _, _ => none
+  match go args [] with
+  | some fs => hexStr (String.ofList (AL.JsonEnc.encAll fs))
+  | none => "bad-op"
 
 /-- `sanitize <scripthex>` -/
 def handleSanitize : List String → String
